@@ -98,6 +98,10 @@ def run_source(kind, src, script):
             if step[0] == 'request' and not cancelled:
                 credit += step[1]
                 loop.run(lambda n=step[1]: rec.subscription.request(n))
+            elif step[0] == 'burst' and not cancelled:
+                # several request(n) calls in ONE loop iteration: the publisher finds them piled up
+                credit += sum(step[1])
+                loop.run(lambda ns=step[1]: [rec.subscription.request(n) for n in ns])
             elif step[0] == 'ticks':
                 for _ in range(step[1]):
                     loop.tick()
@@ -287,7 +291,9 @@ def correspond(ctx, corr, model_ok):
         script = []
         for _ in range(rng.randint(1, 7)):
             x = rng.random()
-            if x < 0.5:
+            if x < 0.12:
+                script.append(('burst', [rng.choice([1, 2, 3, BIG, BIG]) for _ in range(rng.randint(2, 3))]))
+            elif x < 0.5:
                 script.append(('request', rng.choice([1, 1, 2, 3, n + 1 or 1, BIG])))
             elif x < 0.9:
                 script.append(('ticks', rng.randint(0, 4)))
